@@ -194,6 +194,12 @@ def write_replay(workdir, prop, n, case, dump, why):
         f.write("# property %s\n# %s\n" % (prop, why))
         f.write("# replay: ./check %s --replay %s\n" % (prop, path))
         f.write("CASE\t" + "\t".join(case) + "\n")
+        # a failure that needs a second process with other ambient inputs to show (C20)
+        m = re.search(r"environment variable (\w+)", why)
+        if m:
+            f.write("AMBIENT\tenv\t%s=1\n" % m.group(1))
+        if "clock or the process id" in why:
+            f.write("AMBIENT\tshim\tENTRAIT_VERIF_TIME_SHIFT=333333333\tENTRAIT_VERIF_PID_XOR=21845\n")
         f.write(dump)
     return path
 
@@ -285,6 +291,8 @@ def run_check(prop, tier, seed):
     failing = []
     kbreak = []
     printed_known = set()
+    relabel = {}              # real diagnostic text (hex) -> {model message class: first case}
+    body_only = []            # predicate false on the real expansion because of the spelling of a body only
     stats["variants"] = {}
     stats["options_used"] = {}
     stats["item_size_tokens"] = {"<=20": 0, "21-60": 0, "61-150": 0, ">150": 0}
@@ -319,10 +327,23 @@ def run_check(prop, tier, seed):
         if d.get("modelled") == "1" and d.get("agree") == "0":
             stats["agree_break"] += 1
             kbreak.append((cid, "outcome of model (%s) and real macro (%s) differ" % (d.get("model"), d.get("real"))))
-        if prop in ("C17", "C20") and d.get("modelled") == "1" and d.get("tok") == "0" and d.get("agree") == "1":
-            # these properties are about the whole expansion: their projection is the token stream
+        if prop in ("C17", "C20") and d.get("modelled") == "1" and d.get("tok") == "0" and d.get("struct") == "0" and d.get("agree") == "1":
+            # these properties are about the whole expansion: their projection is the token stream, up to the
+            # Rust-equivalent respelling of bounds (`struct` compares the re-parsed items after Obs.canonItem)
             stats["k_break"] += 1
             kbreak.append((cid, "token stream of real and model expansion differ (correspondence K_%s)" % prop))
+        if prop in ("C17", "C20") and d.get("modelled") == "1" and d.get("tok") == "0" and d.get("struct") == "1":
+            stats["respelled"] = stats.get("respelled", 0) + 1
+        if d.get("real") == "diag" and d.get("mmsg") and d.get("msg"):
+            # wording of diagnostics: the macro's text is read as a relabelling of the model's message
+            cls = d["mmsg"]
+            if cls != "syn":
+                try:
+                    if bytes.fromhex(cls).decode().startswith("Unkonwn entrait option"):
+                        cls = "unknown-option"
+                except ValueError:
+                    pass
+            relabel.setdefault(d["msg"], {}).setdefault(cls, cid)
         if prop in ("C17", "C20") and d.get("real") == "ok" and d.get("tok") == "1" and c is not None:
             # non-trivial: the real macro expanded the case and the expansion equals the model's token for token
             nontrivial.add((c[1], c[2], c[3]))
@@ -331,7 +352,13 @@ def run_check(prop, tier, seed):
             k, pm, pr = trip[0], trip[1], trip[2]
             if pr == "-":
                 stats["unobservable"] += 1
-            if pr == "0":
+            if pr == "0" and prop in d.get("BO", "").split(","):
+                # only the spelling of a delegating body is not recognised (with the model's bodies in their place
+                # the predicate holds): not a failing input by itself - the probes decide (below)
+                stats["body_only"] = stats.get("body_only", 0) + 1
+                body_only.append((cid, "the delegating bodies of the real expansion are not spelled as the model's and P_%s does not "
+                                       "recognise them (it holds with the model's bodies in their place)" % prop))
+            elif pr == "0":
                 stats["p_real_false"] += 1
                 failing.append((cid, "property predicate P_%s is false on the real expansion" % prop))
             if pm == "0" and pr != "0":
@@ -356,12 +383,41 @@ def run_check(prop, tier, seed):
     failing += extra.get("failing", [])
     # E2: compile-and-run probes of this property (rustc's side of the property)
     import probes
-    probe_failures, probe_cov = probes.run(prop, workdir)
+    # the relabelling of diagnostics must keep the messages apart: one text for two different misuses
+    # (or for a misuse and a syn-level error) is not a "specific message" any more
+    def _txt(h):
+        try:
+            return bytes.fromhex(h).decode()
+        except ValueError:
+            return h
+    reworded = {}
+    alts = {}                 # model message -> every text the macro uses for it now
+    for text, classes in relabel.items():
+        own = [c for c in classes if c not in ("syn", "unknown-option")]
+        for c in own:
+            if c != text:
+                reworded[_txt(c)] = _txt(text)
+                alts.setdefault(_txt(c), set()).add(_txt(text))
+        if "unknown-option" in classes and not _txt(text).startswith("Unkonwn entrait option"):
+            alts.setdefault("Unkonwn entrait option", set()).add(_txt(text).split('"')[0])
+        if len(classes) > 1 and prop == "C15":
+            (c1, id1), (c2, id2) = list(classes.items())[:2]
+            failing.append((id2, "the diagnostic text %r answers two different misuses (model messages %r in case %s and %r here): "
+                            "messages are not specific" % (_txt(text)[:80], _txt(c1)[:60], id1, _txt(c2)[:60])))
+    if reworded:
+        stats["diagnostics_reworded"] = reworded
+        if prop == "C15":
+            for a, b in sorted(reworded.items()):
+                print("NOTE: property=C15 diagnostic reworded (read as a relabelling, kept apart from the others): %r -> %r" % (a[:70], b[:70]))
+    probe_failures, probe_cov = probes.run(prop, workdir, alts)
     probe_replays = {}
     for b, why, src in probe_failures:
         pid = "probe:" + b
         probe_replays[pid] = (b, why, src)
         failing.append((pid, "compile-and-run probe %s: %s" % (b, why)))
+    # unrecognised body spellings: what the bodies *do* is rustc's to say - if a compile-and-run probe of the
+    # property fails, that probe is the failing input; otherwise the correspondence is broken without one
+    kbreak = body_only + kbreak
     kbreak += extra.get("kbreak", [])
     for line in extra.get("known", []):
         print(line)
@@ -474,6 +530,28 @@ def replay(prop, path):
     os.makedirs(workdir, exist_ok=True)
     results, cases_file, _ = run_cases([tuple(case)], workdir, "replay", threads=1)
     print(verbose_dump(cases_file, case[0], workdir))
+    ambient = [l.rstrip("\n").split("\t")[1:] for l in open(path) if l.startswith("AMBIENT\t")]
+    if ambient:
+        # expand the case again in a process with the recorded ambient inputs and compare
+        import focus
+        base = focus.load_real(cases_file)
+        env = dict(os.environ)
+        for kind, *assigns in ambient:
+            for a in assigns:
+                k, _, v = a.partition("=")
+                env[k] = v
+            if kind == "shim":
+                so = focus.ensure_shim()
+                if so:
+                    env["LD_PRELOAD"] = so
+        out2 = os.path.join(workdir, "replay_ambient.cases")
+        subprocess.run([os.path.join(HARNESS, "target", "debug", "entrait_verif_harness"),
+                        os.path.join(workdir, "replay.tsv"), out2, "1"], check=True, env=env, stdout=subprocess.DEVNULL)
+        other = focus.load_real(out2)
+        if other != base:
+            print("expansion differs under the recorded ambient inputs %s" % ambient)
+            print("VIOLATION property=%s replay=%s" % (prop, path))
+            return 1
     d = results.get(case[0], {})
     trip = d.get(prop, "")
     bad = (len(trip) == 3 and (trip[2] == "0" or trip[0] == "0")) or d.get("agree") == "0"
